@@ -179,6 +179,11 @@ class Worker(threading.Thread):
         pristine = sh(["git", "-C", REPO, "show", f"{REV}:{c['file']}"])[1]
         rec = dict(c)
         t0 = time.time()
+        lines = pristine.split("\n")
+        here = lines[c["line"] - 1] if c["line"] <= len(lines) else ""
+        if (c["kind"] == "delete-stmt" and here.split("//")[0].strip() != c["old"]) or (c["kind"] != "delete-stmt" and here[c["col"]:c["col"] + len(c["old"])] != c["old"]):
+            rec["verdict"] = "stale-record(source-changed)"; rec["wall_s"] = 0
+            return rec
         try:
             open(path, "w").write(apply(pristine, c))
             rc, out = sh(["cargo", "test", "--offline", "--test", "tests"], cwd=self.wt, env=self.tenv, timeout=600)
